@@ -151,6 +151,9 @@ def run_one_path(env, con, fn, ctx):
         ctx.ghost["trace"] = ctx.trace
         ns["ghost"] = ctx.ghost
         ns["received"] = ctx.ghost.get("received", [])
+        for gk, gv in ctx.ghost.items():
+            if isinstance(gk, str) and gk.isidentifier() and gk not in ns:
+                ns[gk] = gv
         ns.update(extra)
         return ns
 
@@ -365,12 +368,15 @@ def obligation_smt2(env, ob: Obligation, extra_fuel=0, negate=True):
     insts = spec_instances(env, terms, extra_fuel)
     # facts of the fixed axiom base (section 3.3) that are instantiated on the terms present
     ax = env.axiom_instances(terms + insts) if hasattr(env, "axiom_instances") else []
+    from .seqnorm import rewrite
+
     s = z3.Solver()
     for t in ob.pc:
-        s.add(t)
+        s.add(rewrite(t))
     for t in insts:
-        s.add(t)
+        s.add(rewrite(t))
     for t in ax:
         s.add(t)
-    s.add(z3.Not(ob.goal) if negate else ob.goal)
+    g = rewrite(ob.goal)
+    s.add(z3.Not(g) if negate else g)
     return "(set-logic ALL)\n" + s.to_smt2()
